@@ -14,6 +14,7 @@ import XsdataModel.Proofs.ToposortPerm
 import XsdataModel.Proofs.ResolverPerm
 import XsdataModel.Proofs.SeqNumRelabel
 import XsdataModel.Proofs.PackagesPerm
+import XsdataModel.Proofs.SccStruct
 
 namespace Props.C12
 open Py Xs.Codegen List
@@ -124,20 +125,51 @@ example : SamePartition [[['a'], ['b']], [['c']]] [[['c']], [['b'], ['a']]] ∧
     · intro b hb q hq; subst hb; rcases hq with rfl | rfl <;> decide
     · intro b hb; cases hb
 
-/-- **Whole clusters step for two vertex orders** of `set(edges)`: provided the two
-searches found the same partition (this is what `strongly_connected_components`
-is *for*; its order-independence is established by correspondence + the
-mutual-reachability oracle, not proved), the designation result is the same. -/
+/-- **`strongly_connected_components` always yields a partition**: on a graph whose
+edge targets are all vertices (what `ValidateReferences` guarantees), for *every*
+iteration order of `set(edges)` and of the adjacency lists the exact algorithm
+raises nothing (`KeyError`, `IndexError`, recursion bound) and its components are
+non-empty, duplicate free, pairwise disjoint and cover exactly the vertices — so
+every class is designated exactly once. -/
+theorem scc_yields_partition (g : Graph) (hc : ClosedGraph g) (vorder : List Str)
+    (hv : ∀ v, v ∈ vorder ↔ v ∈ keysOf g) :
+    (sccRun g vorder).err = false ∧
+    (∀ c ∈ (sccRun g vorder).out, c ≠ [] ∧ c.Nodup) ∧
+    DisjointLists (sccRun g vorder).out ∧
+    (∀ x, x ∈ keysOf g ↔ ∃ c ∈ (sccRun g vorder).out, x ∈ c) :=
+  scc_partition g hc vorder hv
+
+/-- the hypothesis is decidable and satisfiable -/
+example : ClosedGraph [(['a'], [['b']]), (['b'], [['a'], ['b']])] := by
+  intro x ws h y hy
+  unfold dget at h
+  simp only [List.lookup] at h
+  split at h
+  · cases h; simp only [List.mem_singleton] at hy; subst hy; decide
+  · split at h
+    · cases h
+      simp only [List.mem_cons, List.not_mem_nil, or_false] at hy
+      rcases hy with rfl | rfl <;> decide
+    · cases h
+
+/-- **Whole clusters step for two vertex orders** of `set(edges)` on a closed graph:
+provided the two searches found the same partition (this is what
+`strongly_connected_components` is *for*; that part is established by
+correspondence + the mutual-reachability oracle, not proved), the designation
+result is the same.  Disjointness and the absence of errors are no longer
+assumed: they follow from `scc_yields_partition`. -/
 theorem group_by_strong_components_invariant (package : Str) (cs : List ClassInfo)
-    (vo vo' : List Str)
-    (h : SamePartition (sccRun (classEdges cs) vo).out (sccRun (classEdges cs) vo').out)
-    (hd : DisjointComps (sccRun (classEdges cs) vo).out)
-    (he : (sccRun (classEdges cs) vo).err = (sccRun (classEdges cs) vo').err) :
+    (vo vo' : List Str) (hc : ClosedGraph (classEdges cs))
+    (hvo : ∀ v, v ∈ vo ↔ v ∈ keysOf (classEdges cs))
+    (hvo' : ∀ v, v ∈ vo' ↔ v ∈ keysOf (classEdges cs))
+    (h : SamePartition (sccRun (classEdges cs) vo).out (sccRun (classEdges cs) vo').out) :
     (groupByStrongComponents package cs vo).toOption
       = (groupByStrongComponents package cs vo').toOption := by
+  obtain ⟨he, _, hd, _⟩ := scc_partition (classEdges cs) hc vo hvo
+  obtain ⟨he', _, _, _⟩ := scc_partition (classEdges cs) hc vo' hvo'
   have key := clusters_assignment_invariant package cs h hd
   unfold groupByStrongComponents
-  simp only [← he]
+  simp only [he, he']
   cases h1 : assignClusters package cs (sccRun (classEdges cs) vo).out with
   | error e =>
     cases h2 : assignClusters package cs (sccRun (classEdges cs) vo').out with
@@ -149,7 +181,7 @@ theorem group_by_strong_components_invariant (package : Str) (cs : List ClassInf
     | ok r' =>
       rw [h1, h2] at key
       simp only [Except.toOption, Option.map_some, Option.some.injEq] at key
-      simp only [key]
+      simp [Except.toOption, key]
 
 /-! ## 2. type priority after `set()` de-duplication -/
 
